@@ -48,6 +48,7 @@ package smgp
 //@ func ParseOptions
 //@   props C16,C03
 //@   ensures [C16,C11 wf] err == nil ==> tlvwf(result)
+//@   ensures [C12 owned] err == nil ==> fresh(result)
 //@   ensures [C16 errors] err == nil || err == ErrLength
 //@   ensures [C03 alloc] alloc <= old(alloc) + 25 * len(rawData) + 256
 //@   option alloc = 25 * len(rawData) + 256
@@ -58,6 +59,7 @@ package smgp
 //@   loop 1
 //@     invariant 0 <= p && p <= length
 //@     invariant tlvwf(ops)
+//@     invariant fresh(ops)
 //@     invariant alloc <= entry(alloc) + 25 * p
 //@     invariant drop(content(rawData), p + 2) == drop(drop(content(rawData), p), 2) && drop(content(rawData), p + 4) == drop(drop(content(rawData), p), 4)
 //@     invariant @ser 0 <= iter && iter <= len(M) && drop(content(rawData), p) == tlvser(M, ord, iter, len(M))
@@ -72,6 +74,7 @@ package smgp
 //@   modifies r.buffer.unread, r.opError
 //@   ensures packet.rinv(r)
 //@   ensures [C16,C11 wf] tlvwf(result)
+//@   ensures [C12 owned] fresh(result)
 //@   ensures [C03 consumed] len(packet.rem(r)) <= old(len(packet.rem(r)))
 //@   ensures [C03 sticky] old(packet.rfailed(r)) ==> packet.rfailed(r)
 //@   ensures [C03 alloc] alloc <= old(alloc) + 25 * (old(len(packet.rem(r))) - len(packet.rem(r))) + 65536 + 256
@@ -83,7 +86,7 @@ package smgp
 //@   ensures [C16,C01,C02 parsed] !packet.rfailed(r) && mapeq(result, M)
 //@   loop 1
 //@     invariant packet.rinv(r)
-//@     invariant tlvwf(options)
+//@     invariant tlvwf(options) && fresh(options)
 //@     invariant len(packet.rem(r)) <= entry(len(packet.rem(r)))
 //@     invariant entry(packet.rfailed(r)) ==> packet.rfailed(r)
 //@     invariant alloc <= entry(alloc) + 25 * (entry(len(packet.rem(r))) - len(packet.rem(r)))
